@@ -91,7 +91,11 @@ var specs = []spec{
 	{File: "shard/idcounter.go", Func: "MaxId", Recv: "IdCounter", Module: "IdCounter", Ext: true, Structs: idCounterFields},
 	{File: "shard/idcounter.go", Func: "NextId", Recv: "IdCounter", Module: "IdCounter", Ext: true, Structs: idCounterFields},
 	{File: "shard/idcounter.go", Func: "FreeId", Recv: "IdCounter", Module: "IdCounter", Ext: true, Structs: idCounterFields},
+	{File: "cluster/actions.go", Func: "curateFailedPoints", Module: "Curate", Ext: true, Structs: curateStructs, Prims: []string{"sortFunc"},
+		Consts: []constSpec{{File: "cluster/errors.go", Name: "ErrShardUnavailable", As: "ErrShardUnavailable"}}},
 }
+
+var curateStructs = []structSpec{{File: "cluster/actions.go", Name: "FailedPoint"}}
 
 // the in-memory part of shard.IdCounter (the bucket and its keys are storage, not translated)
 var idCounterFields = []structSpec{{File: "shard/idcounter.go", Name: "IdCounter", Only: []string{"freeIds", "nextFreeId"}}}
